@@ -49,9 +49,52 @@ def parse_kv(s):
     return d
 
 
+PURE_METHODS = ('len', 'is_some', 'is_none', 'is_empty')
+_pulled_helpers = set()
+
+
+def pull_pure_helpers(repo, spec, fn_text, template_text):
+    """A function under contract calls `self.h(..)` / `Self::h(..)` where `h` is declared neither by the template nor among the
+    extracted functions, but IS a private function of the same impl block whose body is one side-effect-free expression (field
+    reads, arithmetic, comparisons, `.len()`-like calls): the helper is pulled in verbatim and given the postcondition
+    `r == <its own body>`. Anything else (statements, calls, macros) is left alone - the unit then fails to compile: UNDECIDED."""
+    from extract import Source, code_mask, sha256 as _sha
+    res = []
+    try:
+        src = Source(repo + '/' + spec['file'])
+    except OSError:
+        return res
+    for name in sorted(set(re.findall(r'\b(?:self\s*\.|Self\s*::)\s*(\w+)\s*\(', code_mask(fn_text)))):
+        if re.search(r'\bfn\s+' + name + r'\b', template_text) or re.search(r'name=' + name + r'\b', template_text) or (spec['file'], name) in _pulled_helpers:
+            continue
+        try:
+            loc = src.find_fn(spec.get('impl') or None, name, 0)
+        except ExtractError:
+            continue
+        sig = src.text[loc['start']:loc['body_open']]
+        body = src.text[loc['body_open']:loc['end']]
+        inner = body.strip()[1:-1].strip()
+        imask = code_mask(inner)
+        if re.match(r'\s*pub\b', sig) or ';' in imask or '!' in re.sub(r'!=', '', imask).replace('!(', '(').replace('! ', ' ') and re.search(r'\w+!\s*[\(\[\{]', imask):
+            continue
+        calls = re.findall(r'\.\s*(\w+)\s*\(', imask) + re.findall(r'(?<![\.\w])(\w+)\s*\(', imask)
+        if any(c not in PURE_METHODS for c in calls) or '&mut' in imask or '->' not in code_mask(sig):
+            continue
+        m = re.search(r'->\s*([^\{]+?)\s*$', sig.strip())
+        if not m:
+            continue
+        new_sig = sig.strip()[:m.start()] + '-> (verif_r: %s)' % m.group(1).strip()
+        txt = '%s\n        ensures verif_r == (%s),\n    %s' % (new_sig, inner, body)
+        _pulled_helpers.add((spec['file'], name))
+        res.append((txt, dict(file=spec['file'], impl=loc['header'], fn=name + ' (auto-pulled helper)', lines=[src.line_of(loc['start']), src.line_of(loc['end'] - 1)],
+                              sha256=_sha(src.text[loc['start']:loc['end']]), rules_fired={'auto-helper': 1}, has_contract=True)))
+    return res
+
+
 def assemble(tpl_path, repo=REPO, drop_lines=()):
     """returns (text, functions_under_contract[], items[], line_map) ; raises ExtractError"""
     out, fns, items = [], [], []
+    _pulled_helpers.clear()
     options = set()
     lines = open(tpl_path, encoding='utf-8').read().split('\n')
     for d in drop_lines:
@@ -147,6 +190,12 @@ def assemble(tpl_path, repo=REPO, drop_lines=()):
             txt, info = (extract_closure_fn(repo, spec) if is_closure else (extract_loop_body_fn(repo, spec) if is_loopbody else extract_fn(repo, spec)))
             info['has_contract'] = bool(spec.get('contract'))
             fns.append(info)
+            if not is_closure and not is_loopbody:
+                for htxt, hinfo in pull_pure_helpers(repo, spec, txt, '\n'.join(lines)):
+                    fns.append(hinfo)
+                    out.append('    // extracted helper (auto: a private one-expression function of the same impl block that the template does not know;')
+                    out.append('    // its postcondition is its own body): %s :: %s (lines %d-%d, sha256 %s)' % (hinfo['file'], hinfo['fn'], hinfo['lines'][0], hinfo['lines'][1], hinfo['sha256'][:12]))
+                    out.append('    ' + htxt.rstrip())
             out.append('    // extracted: %s :: %s :: %s  (lines %d-%d, sha256 %s, rules %s)' % (
                 info['file'], info['impl'], info['fn'], info['lines'][0], info['lines'][1], info['sha256'][:12], info['rules_fired']))
             out.append('    ' + txt.rstrip())
